@@ -153,3 +153,107 @@ Theorem simple_reflexive_table : forall n A,
   simple A = true -> forallb (atom_ok table) (atoms_of A) = true ->
   can_assign_f table (S (S (S n))) false A A = true.
 Proof. intros n A HA Hok. rewrite simple_closed_form by assumption. now apply acc_simple_refl. Qed.
+
+(* ---- the four table facts behind membership-soundness, for all class codes ---- *)
+Require Import PV.Proofs.C04Sound.
+
+Lemma sub_promo_key : forall k c, sub_promo table k c = true -> In k (map fst issub_tbl).
+Proof.
+  intros k c H. unfold sub_promo in H. cbn [issub table] in H.
+  apply orb_true_iff in H. destruct H as [H|H]; [apply orb_true_iff in H; destruct H as [H|H]|].
+  - eapply mem_pair_first; eauto.
+  - apply andb_true_iff in H. destruct H as [H _]. eapply mem_pair_first; eauto.
+  - apply andb_true_iff in H. destruct H as [H _]. eapply mem_pair_first; eauto.
+Qed.
+
+Definition f_up_check : bool :=
+  forallb (fun k => forallb (fun q =>
+     implb (nominal_cls (snd q) && sub_promo table k (fst q)) (sub_promo table k (snd q))) tassign_tbl)
+     (nodup N.eq_dec (map fst issub_tbl)).
+Lemma f_up_check_ok : f_up_check = true. Proof. vm_compute. reflexivity. Qed.
+
+Definition f_nom_check : bool :=
+  forallb (fun k => forallb (fun d => implb (nominal_cls d && nominal table k d) (sub_promo table k d)) classes)
+          (nodup N.eq_dec all_keys).
+Lemma f_nom_check_ok : f_nom_check = true. Proof. vm_compute. reflexivity. Qed.
+
+Definition f_tsub_check : bool :=
+  forallb (fun q => implb (nominal_cls (snd q)) (sub_promo table (fst q) (snd q))) tassign_tbl.
+Lemma f_tsub_check_ok : f_tsub_check = true. Proof. vm_compute. reflexivity. Qed.
+
+Definition f_gb_check : bool :=
+  forallb (fun p => forallb (fun g =>
+     implb (N.eqb (snd p) (fst (fst g))) (mem_pair (fst p) (snd (fst g)) issub_tbl)) gb_args_tbl) issub_tbl.
+Lemma f_gb_check_ok : f_gb_check = true. Proof. vm_compute. reflexivity. Qed.
+
+Lemma find_pair_In : forall {A} c d (l : list ((N * N) * A)) x, find_pair c d l = Some x -> In ((c, d), x) l.
+Proof.
+  induction l as [|[[a b] y] l IH]; simpl; intros x H; [discriminate|].
+  destruct (N.eqb a c && N.eqb b d) eqn:E.
+  - apply andb_true_iff in E. destruct E as [E1 E2]. apply N.eqb_eq in E1. apply N.eqb_eq in E2.
+    injection H as <-. subst. now left.
+  - right. auto.
+Qed.
+
+(* every target that has an acceptance row is a class of the universe *)
+Definition targets_in_classes : bool :=
+  forallb (fun q => existsb (N.eqb (snd q)) classes) tassign_tbl &&
+  forallb (fun q => existsb (N.eqb (snd q)) classes) issub_tbl &&
+  forallb (fun q => existsb (N.eqb (snd (fst q))) classes) nomk_tbl.
+Lemma targets_in_classes_ok : targets_in_classes = true. Proof. vm_compute. reflexivity. Qed.
+
+Lemma nominal_target : forall k d, nominal table k d = true -> In d classes.
+Proof.
+  intros k d H. pose proof targets_in_classes_ok as T. unfold targets_in_classes in T.
+  apply andb_true_iff in T. destruct T as [T T3]. apply andb_true_iff in T. destruct T as [T1 T2].
+  rewrite forallb_forall in T1, T2, T3.
+  unfold nominal in H. cbn [nomk tassign issub table] in H.
+  assert (G : forall x, existsb (N.eqb x) classes = true -> In x classes).
+  { intros x E. apply existsb_exists in E. destruct E as [y [Hy Ey]]. apply N.eqb_eq in Ey. now subst. }
+  destruct (find_pair k d nomk_tbl) as [b|] eqn:Fp.
+  - apply find_pair_In in Fp. apply G. exact (T3 _ Fp).
+  - apply orb_true_iff in H. destruct H as [H|H]; apply mem_pair_In in H; apply G; [exact (T1 _ H)|exact (T2 _ H)].
+Qed.
+
+Theorem table_sound_facts : sound_facts table.
+Proof.
+  constructor.
+  - intros k c d Hnp Hs Ht.
+    assert (Hk : In k (nodup N.eq_dec (map fst issub_tbl))) by (apply nodup_In; eapply sub_promo_key; eauto).
+    cbn [tassign table] in Ht. apply mem_pair_In in Ht.
+    pose proof f_up_check_ok as H. unfold f_up_check in H.
+    rewrite forallb_forall in H. specialize (H _ Hk). rewrite forallb_forall in H. specialize (H _ Ht).
+    cbn [fst snd] in H. rewrite Hnp, Hs in H. exact H.
+  - intros k d Hnp Hn.
+    assert (Hk : In k (nodup N.eq_dec all_keys)) by (apply nodup_In; eapply nominal_key; eauto).
+    assert (Hd := nominal_target k d Hn).
+    pose proof f_nom_check_ok as H. unfold f_nom_check in H.
+    rewrite forallb_forall in H. specialize (H _ Hk). rewrite forallb_forall in H. specialize (H _ Hd).
+    rewrite Hnp, Hn in H. exact H.
+  - intros c d Hnp Ht. cbn [tassign table] in Ht. apply mem_pair_In in Ht.
+    pose proof f_tsub_check_ok as H. unfold f_tsub_check in H. rewrite forallb_forall in H. specialize (H _ Ht).
+    cbn [fst snd] in H. rewrite Hnp in H. exact H.
+  - intros k c d Hkc Hcd [gs Hg]. cbn [issub gb_args table] in *.
+    apply mem_pair_In in Hkc. apply find_pair_In in Hg.
+    pose proof f_gb_check_ok as H. unfold f_gb_check in H.
+    rewrite forallb_forall in H. specialize (H _ Hkc). rewrite forallb_forall in H. specialize (H _ Hg).
+    cbn [fst snd] in H. rewrite N.eqb_refl in H. exact H.
+Qed.
+
+(* membership-soundness on the dumped table, end to end *)
+Theorem strict_sound_table : forall n A B o,
+  strict_f table n A B = true -> member table B o = true -> member table A o = true.
+Proof. intros n A B o H. exact (strict_sound table table_sound_facts n A B H o). Qed.
+
+(* the sound core covers non-trivial pairs: Sequence[float | None] <- list[bool | None],
+   Mapping[str, tuple[int, A]] <- dict[str, tuple[bool, B]], type[A] <- type[B] *)
+Definition t_cls (c : N) := VLeaf (LTyped c false).
+Definition t_none := VLeaf (LKnown ONone).
+Lemma strict_examples :
+  strict_f table 6 (VNode (TGeneric c_Sequence) [VUnion [t_cls c_float; t_none]])
+                   (VNode (TGeneric c_list) [VUnion [t_cls c_bool; t_none]]) = true /\
+  strict_f table 6 (VNode (TGeneric c_Mapping) [t_cls c_str; VNode (TSeq c_tuple [false; false]) [VUnion [t_cls c_int; t_cls 40]; t_cls c_int; t_cls 40]])
+                   (VNode (TGeneric c_dict) [t_cls c_str; VNode (TSeq c_tuple [false; false]) [VUnion [t_cls c_bool; t_cls 41]; t_cls c_bool; t_cls 41]]) = true /\
+  strict_f table 6 (VNode (TSubclass false) [t_cls 40]) (VNode (TSubclass false) [t_cls 41]) = true /\
+  strict_f table 6 (VNode (TGeneric c_list) [t_cls c_int]) (t_cls c_list) = false.
+Proof. vm_compute. repeat split; reflexivity. Qed.
